@@ -31,6 +31,7 @@ def cases(seed, tier):
     out = [{"fam": "exh", "seed": [seed, 8, i], "size": 7 + i % 4} for i in range(10 if q else 60)]
     out += [{"fam": "rand", "seed": [seed, 8, 1000 + i], "count": 8} for i in range(40 if q else 400)]
     out += [{"fam": "resampled", "seed": [seed, 8, 5000 + i], "count": 4} for i in range(16 if q else 160)]
+    out += [{"fam": "lattice", "seed": [seed, 8, 9000 + i], "count": 6} for i in range(8 if q else 80)]
     dumps = ["initial_furrow.dmp", "last_furrow.dmp", "12_12/step_20.dmp", "furrow_gauss_velocity/stage3.dmp"] if q else None
     out += [{"fam": "fixture", "file": f} for f in _fixtures(dumps)]
     return out
@@ -89,6 +90,13 @@ def _install():
                 break
         # classification, every copy
         ref_int = {topo.canon(vp) for vp, ep in t.paths if t.is_internal(vp)}
+        # The property's two clauses ("internal iff the vertex predicate holds" and "internal interfaces separate exactly two
+        # cells") contradict each other for a two-point interface between junctions of degree >= 4 that lies on a hole / on the
+        # outline (square lattices): the vertex predicate holds but only one cell is adjacent.  Such interfaces are outside the
+        # decisive domain of both clauses; they are counted, not judged.
+        amb = {topo.canon(vp) for vp, ep in t.paths if t.is_internal(vp) and len(t.cells_of_path(vp)) != 2}
+        if amb:
+            mon.count("ambiguous-one-cell-interface", len(amb))
         mon.count("clause:internal", len(ref_int))
         a = [topo.canon(b.get_vertices_ids()) for b in self.internal_big_edges]
         bb = [topo.canon(p) for p in self.internal_big_edges_vertices]
@@ -109,7 +117,7 @@ def _install():
                 mon.fail("F-EMPTY-TABLE" if len(self.big_edges) == 0 else "get_tensions-raises",
                          "tension table can be produced", exc=repr(exc)[:200], n_interfaces=len(self.big_edges))
         for name, lst in copies.items():
-            if set(lst) != ref_int or len(lst) != len(set(lst)):
+            if not (ref_int - amb <= set(lst) <= ref_int) or len(lst) != len(set(lst)):
                 mon.fail("classification", f"{name} = internal interfaces (every vertex in >=2 cells, one end in >=3)",
                          copy=name, n_got=len(lst), n_ref=len(ref_int),
                          wrong=[p for p in set(lst) ^ ref_int][:3])
@@ -121,6 +129,8 @@ def _install():
             mon.fail("external-ids", "external_edges_id = interfaces touching a vertex of fewer than two cells")
         # internal interfaces separate exactly two cells
         for b in self.internal_big_edges:
+            if topo.canon(b.get_vertices_ids()) in amb:
+                continue
             mon.count("clause:own_cells")
             ref_c = t.cells_of_path(tuple(b.get_vertices_ids()))
             if len(b.own_cells) != 2 or set(b.own_cells) != ref_c:
@@ -215,6 +225,26 @@ def run_case(case):
                 s = _sig(mon)
                 if s:
                     sigs.append(s)
+        elif case["fam"] == "lattice":
+            # square / brick / hexagonal lattices: four-fold junctions, T-junctions, cells touching at a corner
+            from fv.gen import scen
+            rng = np.random.default_rng(case["seed"])
+            for _ in range(case["count"]):
+                at = scen.base_tissue(rng, ["lat-square", "lat-brick", "lat-hex", "lat-square"][int(rng.integers(4))])
+                if rng.random() < 0.6:
+                    at = at.sub(tissue.random_connected_subset(rng, at, int(rng.integers(1, len(at.cells) + 1))))
+                if rng.random() < 0.3 and len(at.cells) > 6:
+                    ids = sorted(at.cells)
+                    drop = set(int(x) for x in rng.choice(ids, size=max(1, len(ids) // 6), replace=False))
+                    at = at.sub(max(at.components([c for c in ids if c not in drop]), key=len))
+                r = realise.realise(at, k=int(rng.integers(0, 5)) if rng.random() < 0.5 else (0, 4), rng=rng,
+                                    relabel=bool(rng.integers(2)), shifts=True, flips="random", edge_dirs=True,
+                                    cell_order=bool(rng.integers(2)))
+                _build_frame(r)
+                nframes += 1
+                s = _sig(mon)
+                if s:
+                    sigs.append(s + ["lattice"])
         elif case["fam"] == "resampled":
             from forsys import virtual_edges as ve
             rng = np.random.default_rng(case["seed"])
